@@ -1,5 +1,5 @@
 #!/usr/bin/env python3
-"""Write meta.json for the round-4 and round-5 seeded changes from RESULTS.tsv (run after tools/run_seeded.sh)."""
+"""Write meta.json for the round-4, -5 and -6 seeded changes from RESULTS.tsv (run after tools/run_seeded.sh)."""
 import json, os, collections
 V = "/verif/seeded"
 DESC = {
@@ -41,6 +41,18 @@ DESC = {
               "any failure while loading a result during a reap (unreadable / truncated file): the failed reap has deleted a crop file"),
  "S-C12-5b": ("Harvester.save_full_ds / Sampler.save_full_df write straight to the final name when the data file does not exist yet",
               "first-ever save fails part-way (disk full): a truncated file sits under the data name and every corrected retry fails loading it"),
+ "S-C01-6": ("_run_linear_executor: duck-typed executors get a 'block on the oldest, sweep up whatever else finished' collector whose result index drifts after compaction",
+             "a supplied (non-stdlib) executor whose tasks complete so that a later task has finished while one between it and the oldest has not, e.g. completion order [2, 0, 1, 3]: values land in other combinations' slots"),
+ "S-C04-6": ("write_to_disk: fixed temporary name fname + '.tmp' (same idea as S-C11-1, written against C04's 'parallel growing')",
+             "the same batch grown by two workers whose result writes overlap: the second rename fails with FileNotFoundError and that worker's remaining batches are never grown"),
+ "S-C05-6": ("Harvester.add_ds snapshots _full_ds on entry (before the sync reload) and restores it when the default-policy merge raises",
+             "two sessions on one data name: A harvests, B harvests disjoint points, A's conflicting harvest is refused - A's memory rolls back to its stale view (memory != disk), a later drop_sel/expand_dims of A saves it and B's points are lost"),
+ "S-C06-6": ("from_pickle decorated with functools.lru_cache",
+             "the crop and its farmer reloaded by name more than once in one interpreter session: both reloads share one mutable farmer object, the second raises 'farmer already has a function set'"),
+ "S-C15-6": ("Sampler.add_df reindexes the new rows to the existing table's columns instead of concat(sort=True)",
+             "a later run that brings a new column (per-run constants, or an override naming a new argument): rows are appended but the column is silently dropped, outputs no longer match the recorded arguments"),
+ "S-C16-6": ("grow() opens the result file in append mode before evaluating ('fail early if it cannot be written')",
+             "a job pre-empted (killed) while evaluating, then the work list derived from crop state (single mode / xyzpy-grow re-submitted, or the script regenerated): the empty placeholder counts as a finished batch, it is never grown, reap fails with EOFError"),
 }
 rows = collections.defaultdict(dict)
 for line in open(os.path.join(V, "RESULTS.tsv")):
@@ -58,6 +70,10 @@ for sid, (change, needs) in DESC.items():
         "origin": ("independent sub-agent given only the property text, the ideas used in rounds 1-3, a request to "
                    "make the change manifest only near the upper edge of the quantified ranges or under a rare "
                    "combination, and a scratch worktree of /repo (no access to /verif)") if sid.endswith("-4") else
+                  ("independent sub-agent given only the property text, the ideas used in rounds 1-5, a request for a "
+                   "change that leaves the simplest straight-line use correct and breaks the property only under one "
+                   "completion order / grow order / session pattern / scheduler behaviour (with a focus area), and a "
+                   "scratch worktree of /repo (no access to /verif)") if sid.endswith("-6") else
                   ("independent sub-agent given only the property text, the ideas used in rounds 1-4, a request for a "
                    "change that leaves every sequential fault-free use correct and breaks the property only in one "
                    "crash window / interleaving / I-O error (with a focus area), and a scratch worktree of /repo "
